@@ -6,6 +6,7 @@ import (
 	"bufio"
 	"encoding/json"
 	"fmt"
+	"github.com/cosmos/cosmos-sdk/x/group"
 	"strings"
 
 	abci "github.com/cometbft/cometbft/abci/types"
@@ -26,11 +27,14 @@ type pendingTx struct {
 
 type Runner struct {
 	pending []pendingTx
-	W      *World
-	Tr     *Track
-	Out    *bufio.Writer
-	Lines  int
-	NoProj bool // replicas only need hashes
+	W       *World
+	Tr      *Track
+	Out     *bufio.Writer
+	Lines   int
+	NoProj  bool // replicas only need hashes
+	// PreCheck: this replica is a node that saw every transaction in its mempool and serves gas estimates: each
+	// transaction is offered to Simulate and to CheckTx before it is delivered (C01: neither may influence any result)
+	PreCheck bool
 	// per-run raw results (for replica comparison)
 	Raw []J
 	// optional annotation of a step's result before it is recorded (twin mode)
@@ -121,6 +125,13 @@ func (r *Runner) decodeAny(any *types.Any) J {
 	short := u[strings.LastIndex(u, ".")+1:]
 	o := J{"t": short}
 	switch {
+	case strings.HasSuffix(u, "group.v1.MsgSubmitProposalResponse"):
+		// a proposal that ran successfully is pruned at once; one whose messages failed is kept with that result
+		var x group.MsgSubmitProposalResponse
+		if x.Unmarshal(any.Value) == nil {
+			pr, err := r.W.App.GroupKeeper.Proposal(sdk.WrapSDKContext(r.W.Ctx()), &group.QueryProposalRequest{ProposalId: x.ProposalId})
+			o["executed"] = err != nil || pr == nil || pr.Proposal == nil || pr.Proposal.ExecutorResult == group.PROPOSAL_EXECUTOR_RESULT_SUCCESS
+		}
 	case strings.HasSuffix(u, "enterprise.v1.MsgUndPurchaseOrderResponse"):
 		var x enttypes.MsgUndPurchaseOrderResponse
 		if x.Unmarshal(any.Value) == nil {
@@ -200,7 +211,7 @@ func (r *Runner) track(msgs []M, outs []interface{}) {
 						r.Tr.BcnEver[id] = appendUniq(r.Tr.BcnEver[id], t)
 					}
 				}
-			case "Exec":
+			case "Exec", "GExec":
 				walk(mList(m, "msgs"))
 			}
 		}
@@ -280,6 +291,16 @@ func (r *Runner) execOn(w *World, ev M, primary bool) (J, error) {
 			return nil, fmt.Errorf("BuildTx: %w", berr)
 		}
 		if a == "DeliverTx" {
+			if primary && r.PreCheck {
+				func() {
+					defer func() { recover() }()
+					w.App.Simulate(bz)
+				}()
+				func() {
+					defer func() { recover() }()
+					w.App.CheckTx(abci.RequestCheckTx{Tx: bz, Type: abci.CheckTxType_New})
+				}()
+			}
 			rr := w.App.DeliverTx(abci.RequestDeliverTx{Tx: bz})
 			res = txResJ(rr.Code, rr.Codespace, rr.Data, rr.Log, rr.GasWanted, rr.GasUsed, r)
 			res["gasW"], res["gasU"] = rr.GasWanted, rr.GasUsed
